@@ -1106,6 +1106,12 @@ class Executor(Engine):
                 if c.bag_ty is not None:
                     res = V(c.bag_ty, st2.bag)
                 else:
+                    rv = o[1]
+                    if isinstance(rv.ty, TOpt) and not isinstance(rty, TOpt) and rty != NONE:
+                        # an Optional value returned where the contract promises a value: it must not be None on this path
+                        self.obl(f'{c.short}#returns-a-value@{line}:p{p}', st2.pc, z3.Not(rv.ty.is_none(rv.t)), 'type', line)
+                        rv = V(rv.ty.inner, rv.ty.val(rv.t))
+                        o = (o[0], rv) + tuple(o[2:])
                     try:
                         res = coerce(o[1], rty)
                     except OutOfSubset:
